@@ -1513,7 +1513,9 @@ struct array : static_array<T, D, Alloc> {
 			adl_alloc_uninitialized_value_construct_n(this->alloc(), tmp.data_elements(), tmp.num_elements());
 		}
 		auto const is = intersection(this->extensions(), tmp.extensions());
-		tmp.apply(is).elements() = this->apply(is).elements();  // same index block on both sides; each side keeps its own index base, so the blocks are not compared by extension  // TODO(correaa) : use (and implement) `.move();`
+		if(is.num_elements() != 0) {  // nothing in common: nothing to transfer, and no view is formed of a possibly null block
+			tmp.apply(is).elements() = this->apply(is).elements();  // same index block on both sides; each side keeps its own index base, so the blocks are not compared by extension  // TODO(correaa) : use (and implement) `.move();`
+		}
 		this->destroy();
 		this->deallocate();
 		this->base_            = tmp.base();
@@ -1544,7 +1546,9 @@ struct array : static_array<T, D, Alloc> {
 		);
 		this->uninitialized_fill_n(tmp.data_elements(), static_cast<typename multi::allocator_traits<typename array::allocator_type>::size_type>(tmp.num_elements()), elem);
 		auto const is = intersection(this->extensions(), tmp.extensions());
-		tmp.apply(is).elements() = this->apply(is).elements();  // same index block on both sides; each side keeps its own index base
+		if(is.num_elements() != 0) {  // nothing in common: nothing to transfer, and no view is formed of a possibly null block
+			tmp.apply(is).elements() = this->apply(is).elements();  // same index block on both sides; each side keeps its own index base
+		}
 		this->destroy();
 		this->deallocate();
 		this->base_            = tmp.base();  // TODO(correaa) : use (and implement) `.move();`
